@@ -31,9 +31,42 @@ def main(out, seed, n):
         except BaseException as e:  # noqa
             r = {"k": "raised:" + type(e).__name__, "a": "", "items": [], "keys": [], "cls": ""}
         recs.append({"style": style, "desc": "version %s %s notification" % (ver, style), "ret": r})
+    # histories on one proxy over a real transport: an exchange that goes wrong, then a notification (answered with an
+    # empty body, as a server does): the notification call still returns None
+    from harness import netpeer
+    peer = netpeer.ScriptedPeer()
+    try:
+        for k in range(max(13, n // 4)):
+            fault = ["H", "HC", "CB", "RS", "E4L", "E5L", "E5N", "TR", "E0", "NJ", "S202", "S203", "TRC"][k % 13]
+            ver = rnd.choice([1.0, 2.0])
+            p = jsonrpc.ServerProxy(peer.url(), version=ver)
+            with peer.lock:
+                peer.script[:] = [fault] + (["H"] if rnd.random() < 0.3 else []) + ["E0"]
+                nbefore = len(peer.script) - 1
+            try:
+                p.echo("tok-%d" % k)
+                if nbefore == 2:
+                    p.echo("tok2-%d" % k)
+            except BaseException:  # noqa
+                pass
+            with peer.lock:
+                peer.script[:] = ["E0"]
+            try:
+                r = enc(p._notify.note("n-%d" % k))
+            except BaseException as e:  # noqa
+                r = {"k": "raised:" + type(e).__name__, "a": "", "items": [], "keys": [], "cls": ""}
+            recs.append({"style": "after-" + fault, "desc": "version %s notification after a %s exchange on the same proxy" % (ver, fault), "ret": r})
+            try:
+                p("close")()
+            except BaseException:  # noqa
+                pass
+    finally:
+        peer.down()
     json.dump(recs, open(out, "w"))
     print(len(recs))
 
 
 if __name__ == "__main__":
+    import socket as _socket
+    _socket.setdefaulttimeout(10)
     main(sys.argv[1], int(sys.argv[2]), int(sys.argv[3]))
